@@ -6,6 +6,8 @@ package core
 
 import (
 	"bytes"
+	"crypto/sha256"
+	"encoding/hex"
 	"fmt"
 	"io"
 	"io/fs"
@@ -115,13 +117,33 @@ func (e *Env) goBuild(out string, extra ...string) (string, error) {
 	args = append(args, "-o", dst, ".")
 	cmd := exec.Command("go", args...)
 	cmd.Dir = e.Repo
-	cmd.Env = GoEnv()
+	// The cgo package qbe_embeddings #includes /repo/qbe/*.c from outside its directory; the Go
+	// build cache does not see edits there. A hash of those sources in CGO_CFLAGS makes the
+	// cache key follow them, so the binary is always rebuilt from the current working tree.
+	cmd.Env = append(GoEnv(), "CGO_CFLAGS=-O2 -g -DVERIF_QBE_SRC_HASH="+e.qbeHash())
 	var buf bytes.Buffer
 	cmd.Stdout, cmd.Stderr = &buf, &buf
 	if err := cmd.Run(); err != nil {
 		return "", fmt.Errorf("go build %v in %s: %v\n%s", extra, e.Repo, err, buf.String())
 	}
 	return dst, nil
+}
+
+func (e *Env) qbeHash() string {
+	h := sha256.New()
+	filepath.WalkDir(filepath.Join(e.Repo, "qbe"), func(p string, d fs.DirEntry, err error) error {
+		if err != nil || d.IsDir() {
+			return nil
+		}
+		if ext := filepath.Ext(p); ext == ".c" || ext == ".h" {
+			if b, err := os.ReadFile(p); err == nil {
+				h.Write([]byte(p))
+				h.Write(b)
+			}
+		}
+		return nil
+	})
+	return hex.EncodeToString(h.Sum(nil))[:16]
 }
 
 // Ferret builds the compiler exactly as a user does.
